@@ -385,13 +385,21 @@ func getDigits(s string) (int, bool) {
 	return v, true
 }
 
-// fixedString: `width` bytes: a prefix of 'p' bytes and the key in 7 decimal digits (lexicographic = numeric order).
+func digitsOf(width int) int {
+	if width < 9 {
+		return width
+	}
+	return 9
+}
+
+// fixedString: `width` bytes: a prefix of 'p' bytes and the key in 9 decimal digits (lexicographic = numeric order).
 func fixedString(width, key int, fill byte) string {
 	b := make([]byte, width)
-	for i := 0; i < width-7; i++ {
+	d := digitsOf(width)
+	for i := 0; i < width-d; i++ {
 		b[i] = fill
 	}
-	putDigits(b[width-7:], key)
+	putDigits(b[width-d:], key)
 	return string(b)
 }
 
@@ -399,12 +407,13 @@ func fixedStringKey(s string, width int) (int, bool) {
 	if len(s) != width {
 		return 0, false
 	}
-	for i := 0; i < width-7; i++ {
+	d := digitsOf(width)
+	for i := 0; i < width-d; i++ {
 		if s[i] != 'p' {
 			return 0, false
 		}
 	}
-	return getDigits(s[width-7:])
+	return getDigits(s[width-d:])
 }
 
 func junkBytes(width int) func(m int) any {
